@@ -10,6 +10,8 @@ CONSTANTS
   EmitMode = "none"
   HistViews = FALSE
   OrderedBegin = FALSE
+  MaxOpen = 9
+  NoClose = FALSE
 VIEW View0
 INVARIANTS TypeOK NoDirty PrefixRule Complete
 CHECK_DEADLOCK FALSE
